@@ -136,7 +136,15 @@ fn find_entry_clause(ctx: &mut Ctx, f: &Foreign, rng: &mut Rng) {
             let end = e.tile_id + u64::from(e.run_length);
             probes.extend([e.tile_id, e.tile_id.wrapping_sub(1), e.tile_id + 1, end.wrapping_sub(1), end, end + 1]);
         }
-        probes.extend([0, u64::MAX, rng.next()]);
+        for e in entries.iter().step_by(step) {
+            // ids whose distance to an entry start is k * 2^32 + d (narrowing casts in a lookup alias them)
+            for k in [1u64, 2, 1 << 16] {
+                for d in [0u64, 1, u64::from(e.run_length.saturating_sub(1))] {
+                    probes.push(e.tile_id.wrapping_add(k << 32).wrapping_add(d));
+                }
+            }
+        }
+        probes.extend([0, u64::MAX, rng.next(), 1 << 32, (1 << 32) + 5]);
         for id in probes {
             let want = R::find_covering(&entries, id);
             let got: Option<REntry> = lib.find_entry_for_tile_id(id).map(|e| REntry {
